@@ -24,7 +24,7 @@ for p in props:
             files.append(f)
     exe = os.path.join(out, "vh-" + p)
     r = subprocess.run(["go", "build", "-tags", "verif", "-cover",
-                        "-coverpkg=github.com/olive-io/bpmn/v2/...,github.com/olive-io/bpmn/schema/...",
+                        "-coverpkg=all",
                         "-o", exe] + files, cwd=d, env=ENV, capture_output=True, text=True)
     if r.returncode != 0:
         print(p, "build failed", r.stderr[-500:]); continue
@@ -38,7 +38,7 @@ for p in props:
     print(p, "done", len(os.listdir(cd)), "files", flush=True)
 dirs = ",".join(os.path.join(out, "data", p) for p in os.listdir(os.path.join(out, "data")))
 prof = os.path.join(out, "profile.txt")
-subprocess.run(["go", "tool", "covdata", "textfmt", "-i=" + dirs, "-o", prof], env=ENV, check=True)
+subprocess.run(["go", "tool", "covdata", "textfmt", "-i=" + dirs, "-pkg=github.com/olive-io/bpmn/v2,github.com/olive-io/bpmn/v2/pkg/clock,github.com/olive-io/bpmn/v2/pkg/data,github.com/olive-io/bpmn/v2/pkg/event,github.com/olive-io/bpmn/v2/pkg/expression,github.com/olive-io/bpmn/v2/pkg/expression/expr,github.com/olive-io/bpmn/v2/pkg/expression/xpath,github.com/olive-io/bpmn/v2/pkg/id,github.com/olive-io/bpmn/v2/pkg/logic,github.com/olive-io/bpmn/v2/pkg/timer,github.com/olive-io/bpmn/v2/pkg/tracing,github.com/olive-io/bpmn/v2/pkg/errors,github.com/olive-io/bpmn/schema", "-o", prof], env=ENV, check=True, stderr=subprocess.DEVNULL)
 r = subprocess.run(["go", "tool", "cover", "-func=" + prof], cwd="/repo", env=ENV, capture_output=True, text=True)
 open(os.path.join(out, "func.txt"), "w").write(r.stdout + r.stderr)
 print(r.stdout.strip().split("\n")[-1])
